@@ -8,6 +8,7 @@ mod build;
 mod common;
 mod isolate;
 mod observe;
+mod par;
 mod props;
 
 #[allow(unused_imports)]
@@ -35,6 +36,11 @@ fn main() {
         ("drive", "de") => props::de::drive(&args),
         ("replay", "cfb") => isolate::run_replay(&args, props::cfb::replay),
         ("drive", "cfb") => isolate::run_drive(&args, props::cfb::drive),
+        ("replay", "ods") => props::ods::replay(&args),
+        ("drive", "ods") => props::ods::drive(&args),
+        ("replay", "xlsb") => props::xlsb::replay(&args),
+        ("replay", "xlsbframes") => props::xlsb::frames(&args),
+        ("drive", "xlsb") => props::xlsb::drive(&args),
         _ => {
             eprintln!("unknown command {} {}", args.cmd, args.sub);
             2
